@@ -76,7 +76,7 @@ impl fmt::Display for TestErr {
 }
 impl Error for TestErr {}
 
-type DynErr = Arc<dyn Error + Send + Sync + 'static>;
+pub type DynErr = Arc<dyn Error + Send + Sync + 'static>;
 
 // ---------------------------------------------------------------- the world
 
@@ -104,6 +104,8 @@ struct World {
     tasks: HashMap<usize, Task>,
     sleep_flag: HashMap<usize, Arc<AtomicBool>>,
     subscribe: Option<Rc<dyn Fn(usize, usize, u64)>>,
+    /// number of calls of user closures (map's f, filter's predicate, scan's reducer)
+    evals: u64,
 }
 
 thread_local! {
@@ -112,6 +114,10 @@ thread_local! {
 
 fn w<R>(f: impl FnOnce(&mut World) -> R) -> R {
     W.with(|w| f(&mut w.borrow_mut()))
+}
+
+fn count_eval() {
+    w(|w| w.evals += 1)
 }
 
 fn cur_ctx() -> usize {
@@ -503,21 +509,30 @@ fn build(kv: &Kv) -> Rc<dyn Fn(usize, usize, u64)> {
         "map" => {
             let a = geti(kv, "a", 1) as usize;
             let b = geti(kv, "b", 0) as usize;
-            sub_to(Arc::new(map(move |x: usize| a * x + b)(src0())))
+            sub_to(Arc::new(map(move |x: usize| {
+                count_eval();
+                a * x + b
+            })(src0())))
         }
         "filter" => {
             let m = geti(kv, "m", 2) as usize;
             let r = geti(kv, "r", 0) as usize;
-            sub_to(Arc::new(filter(move |x: &usize| *x % m == r)(src0())))
+            sub_to(Arc::new(filter(move |x: &usize| {
+                count_eval();
+                *x % m == r
+            })(src0())))
         }
         "scan" => {
             let k = geti(kv, "k", 0);
             let seed = geti(kv, "seed", 0) as usize;
             sub_to(Arc::new(scan(
-                move |acc: usize, x: usize| match k {
-                    0 => acc + x,
-                    1 => std::cmp::max(acc, x),
-                    _ => 2 * acc + x,
+                move |acc: usize, x: usize| {
+                    count_eval();
+                    match k {
+                        0 => acc + x,
+                        1 => std::cmp::max(acc, x),
+                        _ => 2 * acc + x,
+                    }
                 },
                 seed,
             )(src0())))
@@ -657,7 +672,10 @@ fn run_script(line: &str) -> String {
             });
         }
     }
-    let out = w(|w| std::mem::take(&mut w.out));
+    let mut out = w(|w| std::mem::take(&mut w.out));
+    if std::env::var("CB_EVALS").is_ok() {
+        out.push(format!("evals:{}", w(|w| w.evals)));
+    }
     // drop the world (closures, tasks) outside of any borrow
     let old = W.with(|w| std::mem::take(&mut *w.borrow_mut()));
     let _ = catch_unwind(AssertUnwindSafe(move || drop(old)));
